@@ -12,6 +12,7 @@ ops
 -/
 import IsoVerif.Model.Core.Wire
 import IsoVerif.Model.Core.Validate
+import IsoVerif.Model.Core.Merge
 import IsoVerif.Model.Util
 
 open IsoVerif IsoVerif.Core
@@ -57,12 +58,156 @@ def validateLine (args impl : List String) : String :=
     | some p => validateAnswer p ++ "\t" ++ validateVerdict tag impl
   | _ => "bad-op\tok"
 
+/-! ### C15: engine `arrange`
+
+Request `arrange \t <T> \t <wire P> \t <wire T(P)>`; implementation's answer
+`st=<P>/<T(P)>` then per entrypoint of P (sorted by `Type.field`)
+`ep=<Type.field> P=<map> T=<map> ord=<same|diff:class> ops=<same|diff>`
+where `<map>` is the merged map of the entrypoint in canonical text (entries sorted by their text; see
+harness/merge/src/dump.rs), `ord` says whether the two compiles iterate over equal maps in the same order
+(an observation of the implementation's interning / source-location order, which the model does not
+have: it is ECHOED), `ops` whether `query_text.ts` and `normalization_ast.ts` are byte-identical.
+The model computes `st` from `Validate.validate`, the maps from `Merge.entrypointMap`, and predicts
+`ops = same` iff its two maps have the same text and `ord = same`.
+Oracle, on the implementation's answer alone: T(P) compiles and every `ops` is `same`. -/
+
+open IsoVerif.Core.Merge in
+def hx (s : String) : String := if s.isEmpty then "-" else Wire.encStr s
+
+mutual
+partial def valueText : Value → String
+  | .var v => "$" ++ hx v
+  | .int i => "i" ++ toString i
+  | .bool b => if b then "b1" else "b0"
+  | .str s => "\"" ++ hx s
+  | .float s => "f." ++ hx s
+  | .null => "n"
+  | .enum e => "e." ++ hx e
+  | .list vs => "l[" ++ ",".intercalate (vs.map valueText) ++ "]"
+  | .object fs => "o{" ++ ",".intercalate (fs.map fun kv => hx kv.1 ++ "=" ++ valueText kv.2) ++ "}"
+end
+
+def argsText (as : List Merge.LArg) : String :=
+  "{" ++ ",".intercalate (as.map fun a => hx a.name ++ "=" ++ valueText a.value) ++ "}"
+
+def keyText : Merge.KeyK → String
+  | .discriminator => "D"
+  | .id => "I"
+  | .serverField n a => "F." ++ hx n ++ argsText a
+  | .clientPointer n a => "P." ++ hx n ++ argsText a
+  | .inlineFragment t => "T." ++ hx t
+  | .panic => "X"
+
+def concText : Option String → String
+  | some t => "C." ++ hx t
+  | none => "A"
+
+def bit (b : Bool) : String := if b then "1" else "0"
+
+def insertKeep (x : String) : List String → List String
+  | [] => [x]
+  | y :: ys => if x < y || x == y then x :: y :: ys else y :: insertKeep x ys
+
+def sortKeep (xs : List String) : List String := xs.foldl (fun acc x => insertKeep x acc) []
+
+/-- canonical text of the nested map below the nodes of `es` (paths relative to the current level) -/
+partial def mapText (es : List (List Merge.KeyK × Merge.Payload)) : String :=
+  let nodes := es.filter fun e => e.1.length == 1
+  let texts := nodes.map fun e =>
+    match e.1 with
+    | [k] =>
+      let kids := es.filterMap fun e' =>
+        match e'.1 with
+        | k' :: rest => if k' == k && !rest.isEmpty then some (rest, e'.2) else none
+        | [] => none
+      let kt := keyText k
+      match e.2 with
+      | .scalar f n a => "s(" ++ kt ++ ";" ++ bit f ++ ";" ++ hx n ++ ";" ++ argsText a ++ ")"
+      | .linked f n a c => "l(" ++ kt ++ ";" ++ bit f ++ ";" ++ hx n ++ ";" ++ argsText a ++ ";" ++ concText c ++ ";" ++ mapText kids ++ ")"
+      | .clientObj f n a c => "c(" ++ kt ++ ";" ++ bit f ++ ";" ++ hx n ++ ";" ++ argsText a ++ ";" ++ concText c ++ ";" ++ mapText kids ++ ")"
+      | .frag t => "f(" ++ kt ++ ";" ++ hx t ++ ";" ++ mapText kids ++ ")"
+      | .panic msg => "panic(" ++ msg ++ ")"
+    | _ => ""
+  "[" ++ ",".intercalate (sortKeep texts) ++ "]"
+
+def mergedText (m : Merge.MergedMap) : String :=
+  match Merge.panicOf m with
+  | some msg => "panic:" ++ msg.replace " " "_"
+  | none => mapText (m.map fun e => (e.2.keys, e.2.payload))
+
+def epMapText (p : Project) (ty name : String) : String :=
+  match Merge.entrypointMap p ty name with
+  | none => "none"
+  | some m => mergedText m
+
+def statusOf (p : Project) : String :=
+  let ks := (Validate.validate p).map Validate.Kind.name
+  if ks.isEmpty then "ok" else if ks.contains "panic" then "panic" else "diag"
+
+/-- value of the first field `key=…` after position of `ep=<name>` in the implementation's answer -/
+def implField (impl : List String) (ep key : String) : Option String :=
+  let after := (impl.dropWhile (· != "ep=" ++ ep)).drop 1
+  let mine := after.takeWhile (fun f => !f.startsWith "ep=")
+  (mine.find? (·.startsWith (key ++ "="))).map fun f => (f.drop (key.length + 1)).toString
+
+def arrangeAnswer (p q : Project) (impl : List String) : List String :=
+  let sp := statusOf p
+  let sq := statusOf q
+  let st := "st=" ++ sp ++ "/" ++ sq
+  if sp != "ok" || sq != "ok" then [st] else
+  let eps := sortDedup (p.entrypoints.map fun e => e.parent ++ "." ++ e.name)
+  let qeps := q.entrypoints.map fun e => e.parent ++ "." ++ e.name
+  st :: eps.flatMap fun ep =>
+    match p.entrypoints.find? (fun e => e.parent ++ "." ++ e.name == ep) with
+    | none => []
+    | some e =>
+      let tp := epMapText p e.parent e.name
+      if !qeps.contains ep then ["ep=" ++ ep, "P=" ++ tp, "T=missing", "ord=same", "ops=diff"] else
+      let tq := epMapText q e.parent e.name
+      let ord := (implField impl ep "ord").getD "same"
+      ["ep=" ++ ep, "P=" ++ tp, "T=" ++ tq, "ord=" ++ ord,
+       "ops=" ++ (if tp == tq && ord == "same" then "same" else "diff")]
+
+/-- oracle of C15 on the implementation's answer: classes are narrow on purpose -/
+def arrangeVerdict (t : String) (impl : List String) : String :=
+  match impl.head? with
+  | none => "bad:no-answer"
+  | some st =>
+    if st == "st=ok/ok" then
+      -- first entrypoint whose operations differ
+      let rec go : List String → Option String → Option String → Option String → String
+        | [], _, _, _ => "ok"
+        | f :: rest, pm, tm, ord =>
+          if f.startsWith "ep=" then go rest none none none
+          else if f.startsWith "P=" then go rest (some f) tm ord
+          else if f.startsWith "T=" then go rest pm (some f) ord
+          else if f.startsWith "ord=" then go rest pm tm (some f)
+          else if f == "ops=diff" then
+            let sameMaps := match pm, tm with
+              | some a, some b => (a.drop 2).toString == (b.drop 2).toString
+              | _, _ => false
+            if sameMaps then "bad:order:" ++ ((ord.getD "ord=?").drop 4).toString
+            else "bad:maps-differ:" ++ t
+          else go rest pm tm ord
+      go (impl.drop 1) none none none
+    else if st.startsWith "st=ok/" then "bad:rearranged-rejected:" ++ t ++ ":" ++ (st.drop 6).toString
+    else "ok"   -- P itself is not accepted: nothing to compare
+
+def arrangeLine (args impl : List String) : String :=
+  match args with
+  | [t, wp, wq] =>
+    match Wire.parseProject wp, Wire.parseProject wq with
+    | some p, some q => " ".intercalate (arrangeAnswer p q impl) ++ "\t" ++ arrangeVerdict t impl
+    | _, _ => "bad-wire\tok"
+  | _ => "bad-op\tok"
+
 end Drv
 
 def handle (fs : List String) : String :=
   let (req, impl) := Drv.splitArrow fs
   match req with
   | "validate" :: args => Drv.validateLine args impl
+  | "arrange" :: args => Drv.arrangeLine args impl
   | _ => "bad-op\tok"
 
 def main : IO Unit := IsoVerif.Util.runDriver handle
